@@ -186,7 +186,10 @@ where
     }
     fn deserialize(buf: &mut &[u8]) -> Result<Self, String> {
         let len = usize::deserialize(buf)?;
-        let mut res = Vec::with_capacity(len);
+        // The length is untrusted: every element takes at least one byte, so the
+        // remaining input bounds what is pre-allocated (a longer announced length
+        // ends in the element decoder's error).
+        let mut res = Vec::with_capacity(len.min(buf.len()));
         for _ in 0..len {
             res.push(T::deserialize(buf)?);
         }
